@@ -489,6 +489,8 @@ func stripStmt(s minijs.Stmt) minijs.Stmt {
 		return minijs.SDoWhile{E: t.E, Body: stripList(t.Body)}
 	case minijs.SFor:
 		return minijs.SFor{Init: t.Init, Test: t.Test, Upd: t.Upd, Body: stripList(t.Body)}
+	case minijs.SForIn:
+		return minijs.SForIn{X: t.X, Src: t.Src, Body: stripList(t.Body)}
 	case minijs.SSwitch:
 		out := minijs.SSwitch{E: t.E}
 		for _, c := range t.Cases {
